@@ -77,9 +77,70 @@ def scenario(ctx, job):
     ctx.sample({'scenario': name, 'paths': len(res)})
 
 
+# ---------------------------------------------------------------- collecting the proxies' epochs (fetch_max_epoch)
+class ReadyFuture(PyObj):
+    def __init__(self, v): self.v = v
+    def m_poll(self, e, *a): return Enum('Poll', 0, [self.v])
+
+
+class EpochClient(PyObj):
+    def __init__(self, reply): self.reply = reply
+    def m_execute_single(self, e, s, cmd): return ReadyFuture(self.reply)
+    def m_quit(self, e, s): return ReadyFuture(Ok(mk_unit()))
+
+
+class EpochFactory(PyObj):
+    """RedisClientFactory stand-in: per address one of: answers GETEPOCH with a symbolic epoch, cannot be connected,
+    connection breaks, answers something that is not an integer"""
+    def __init__(self, outcomes): self.outcomes = outcomes
+    def m_create_client(self, e, s, addr):
+        kind, val = self.outcomes[sval(addr)]
+        vi = e.src.variant_index
+        if kind == 'noconn': return ReadyFuture(Err(Enum('RedisClientError', 0, [Opaque('io::Error', 'refused')])))
+        if kind == 'ok':
+            return ReadyFuture(Ok(EpochClient(Ok(Enum('Resp', vi('Resp', 'Integer'), [RVec([], text=RStr((NumStr(val, 64),)))])))))
+        if kind == 'broken': return ReadyFuture(Ok(EpochClient(Err(Enum('RedisClientError', 0, [Opaque('io::Error', 'reset')])))))
+        return ReadyFuture(Ok(EpochClient(Ok(Enum('Resp', vi('Resp', 'Error'), [RVec([Cell(b) for b in b'ERR unknown']) ])))))
+
+
+def fetch_epochs(ctx, job):
+    """fetch_max_epoch over n proxies with every combination of outcomes: the result is the maximum over exactly the
+    proxies that answered, and exactly the others are reported as failed"""
+    import re
+    n = job['n']
+    def run(e):
+        addrs = ['p%d:5299' % i for i in range(n)]
+        outcomes = {}
+        for i, a in enumerate(addrs):
+            k = ['ok', 'noconn', 'broken', 'garbage'][e.choose(4, 'outcome-%d' % i)]
+            outcomes[a] = (k, z3.BitVec('epoch%d' % i, 64))
+        fac = EpochFactory(outcomes)
+        e.fn_stubs = [(re.compile(r'PooledRedisClientFactory.*::new$|pooled::<impl at [^>]*>::new$'), lambda e_, args: fac, 'PooledRedisClientFactory::new')]
+        names = [nm for nm in e.mir.funcs if nm.endswith('::new') and 'Pooled' in e.mir.funcs[nm].ret]
+        e.fn_stubs = [(re.compile(re.escape(nm) + '$'), (lambda e_, args: fac), 'PooledRedisClientFactory::new') for nm in names]
+        fut = e.run_func(e.find_free_fn('epoch::fetch_max_epoch'), [RVec([Cell(RStr(a)) for a in addrs])])
+        r = un(e.block_on(Ref(Cell(fut))))
+        mx = r.f[e.src.structs['EpochFetchResult'].index('max_epoch')].v
+        failed = [sval(c.v) for c in deref_vec(r.f[e.src.structs['EpochFetchResult'].index('failed_addresses')].v).cells]
+        oks = [v for a, (k, v) in outcomes.items() if k == 'ok']
+        def wit(m): return {'outcomes': {a: (k, concretize(v, m) if k == 'ok' else None) for a, (k, v) in outcomes.items()}, 'max_epoch': concretize(mx, m), 'failed_addresses': failed}
+        items = [('failed-proxies-reported', 'C13/unreachable-proxy-not-reported', sorted(failed) == sorted(a for a, (k, v) in outcomes.items() if k != 'ok'), wit)]
+        items.append(('max-over-all-answers', 'C13/fetched-epoch-below-a-proxy-epoch', zand([z3.UGE(bv(mx), v) for v in oks]) if oks else (mx == 0 if not is_sym(mx) else bv(mx) == 0), wit))
+        items.append(('max-is-an-answer', 'C13/fetched-epoch-is-no-proxy-epoch', zor([bv(mx) == v for v in oks]) if oks else True, wit))
+        ctx.require_all(e, items)
+        return 1
+    res = ctx.explore('fetch_max_epoch over %d proxies' % n, run)
+    ctx.ops += len(res)
+
+
+def worker(ctx, job):
+    if job.get('kind') == 'fetch': fetch_epochs(ctx, job)
+    else: scenario(ctx, job)
+
+
 def run(ctx):
     quick = ctx.tier == 'quick'
-    jobs = []
+    jobs = [{'kind': 'fetch', 'n': 2}, {'kind': 'fetch', 'n': 3}]
     for current in ('fresh', 'older'):
         for second in (False, True):
             jobs.append({'current': current, 'second': second, 'shape': [0, 1]})
@@ -88,5 +149,6 @@ def run(ctx):
     jobs.append({'current': 'older', 'second': False, 'shape': [0, 1], 'bad_version': True})
     ctx.bounds = {'jobs': len(jobs), 'symbolic': 'global/cluster epochs of snapshot and current store, largest proxy epoch L (full u64)', 'clusters': '<= 2', 'free proxies': 'yes'}
     ctx.assumptions += ['proxy epochs e_i <= L (L is the maximum fetched)', 'global epoch of both stores < 2^63']
-    ctx.not_explored += ['re-convergence of proxies after sync rounds (C07, not applicable)', 'the network part of fetch_max_epoch', 'replica-broker replication']
-    ctx.run_parallel(jobs, scenario)
+    ctx.not_explored += ['re-convergence of proxies after sync rounds (see C07 for one proxy)', 'the transport under fetch_max_epoch (PooledRedisClientFactory is a stand-in; outcomes per proxy are enumerated)', 'replica-broker replication']
+    ctx.bounds['fetch_max_epoch'] = '2-3 proxies, each answering a symbolic epoch / unreachable / connection broken / non-integer reply'
+    ctx.run_parallel(jobs, worker)
